@@ -704,7 +704,9 @@ def run():
         chk.fail('%s on the %s build: %s' % ({'crash': 'crash / sanitizer report', 'timeout': 'no answer (hang)', 'slow': 'time budget exceeded',
                                               'length': 'resource bound exceeded'}.get(kind, kind),
                                              'ASan+UBSan' if exe == san else 'plain', first_report_line(rep) or rep[:200]),
-                 {'kind': kind, 'exe': os.path.basename(exe), 'request': small.describe(), 'report': (rep or '')[-2000:]}, kind=kind)
+                 {'kind': 'timeout' if kind == 'slow' else kind, 'detail': kind, 'budget_s': SAN_BUDGET_S if exe == san else BUDGET_S,
+                  'exe': os.path.basename(exe), 'request': small.describe(), 'report': (rep or '')[-2000:]},
+                 kind='timeout' if kind == 'slow' else kind)
 
     # ---- dedicated probes for the two uncapped numbers -------------------------------------------
     probes = {}
